@@ -120,6 +120,9 @@ func scribbleFree(v interface{}) {
 }
 
 func genInts(r *rand.Rand) []int {
+	if r.Intn(6) == 0 {
+		return make([]int, 0, 3) // empty, not nil, with room to append
+	}
 	switch r.Intn(4) {
 	case 0:
 		return nil
@@ -481,8 +484,14 @@ func runAlias(root string, seed int64, n int) {
 				refs(reflect.ValueOf(g3).Elem(), ra, "")
 				rep.Refs += len(ra)
 			}
-			// a cached read equals a round trip through the file
-			if !async {
+			// a cached read equals a round trip through the file (asynchronous writes: once flushed —
+			// what reaches the disk is what was stored, not what the caller did to its object since)
+			if async {
+				if err := db.FlushAllAndCommit(&DeepT{}); err != nil {
+					fail("flush: %v", err)
+				}
+			}
+			{
 				db2 := sod.Open(dir)
 				t := &DeepT{}
 				t.Initialize(uuid)
@@ -490,6 +499,8 @@ func runAlias(root string, seed int64, n int) {
 					fail("second handle get: %v", err)
 				} else if g4 := get(); g4 != nil && !reflect.DeepEqual(stripItem(f.(*DeepT)), stripItem(g4)) {
 					fail("cached read differs from the file round trip:\n   file   %s\n   cached %s", snap(f.(*DeepT)), snap(g4))
+				} else if got := snap(f.(*DeepT)); got != want {
+					fail("the file does not hold the value that was stored:\n   stored %s\n   file   %s", want, got)
 				}
 			}
 			// a read that MISSES the cache (new handle on the same directory): what it returns must
